@@ -6,6 +6,7 @@ package main
 import (
 	"flag"
 	"io/ioutil"
+	stdlog "log"
 
 	"fmt"
 	"github.com/getlantern/golog"
@@ -21,6 +22,7 @@ func register(name string, r runner) { runners[name] = r }
 
 func main() {
 	golog.SetOutputs(ioutil.Discard, ioutil.Discard)
+	stdlog.SetOutput(ioutil.Discard)
 	if len(os.Args) < 2 {
 		usage()
 	}
